@@ -881,6 +881,9 @@ Spec == Init /\ [][Next]_vars
 
 MutexOk == /\ muR >= 0 /\ (muW # 0 => muR = 0)
 NoCallbackAfterStop == ~badCallback
+\* ... and a callback in progress belongs to a listener whose stop function has not returned: "never called again" is read as
+\* "no listener code runs once stop() has returned" (stop waits for a delivery in flight)
+NoCallbackRunningAfterStop == cbActive # 0 => cbActive \notin stopped
 \* the only states without a successor are those where the client has finished its calls
 ClientDone == pc[1] = "Done"
 NoDeadlockWhileCalling == (~ENABLED Next) => ClientDone
